@@ -112,6 +112,9 @@ func Const(x any) ast.Constant {
 	switch t[0].(string) {
 	case "n":
 		return ast.Number(Int(t[1]))
+	case "bign":
+		n, _ := strconv.ParseInt(t[1].(string), 10, 64)
+		return ast.Number(n)
 	case "s":
 		return ast.String(t[1].(string))
 	case "c":
@@ -187,6 +190,10 @@ func ASTAtom(a Atom) ast.Atom {
 func FromConst(c ast.Constant) any {
 	switch c.Type {
 	case ast.NumberType:
+		if c.NumValue > math.MaxInt32 || c.NumValue < math.MinInt32 {
+			// TLC integers are 32 bit: a number no model value can equal travels as text
+			return []any{"bign", strconv.FormatInt(c.NumValue, 10)}
+		}
 		return []any{"n", c.NumValue}
 	case ast.StringType:
 		return []any{"s", c.Symbol}
@@ -299,6 +306,8 @@ func TermText(x any) string {
 		return t[1].(string) + "(" + strings.Join(parts, ", ") + ")"
 	case "n":
 		return strconv.FormatInt(Int(t[1]), 10)
+	case "bign":
+		return t[1].(string)
 	case "s":
 		return Quote(t[1].(string))
 	case "c":
